@@ -174,3 +174,34 @@ Proof.
        destruct (a_read_lines_tail N fuel _ t t ls e E) as (Herr&_);
        exact (err_of_fault e t Hft Herr)).
 Qed.
+
+From OV Require Import Model.Fault.
+
+(* Known finding F27: one level above the line reader the fault CAN be swallowed.  The line loop
+   ends with the fault (lines_fault_surfaces), but the old fixed-length reader with
+   by_header_footer envelopes stops at a line that matches no header and answers io.EOF without
+   reading on -- and the line that bufio.ReadLine tears off at the fault is such a line. *)
+Definition starts_with (p l : bytes) : bool := prefix_eqb p l.
+Definition BEG : bytes := [x42; x45; x47].
+
+Theorem hf_envelope_fault_refuted :
+  exists p f ls,
+    a_read_lines 4096 10 (p, TFault f) = Ok (ls, IoFault f) /\        (* the line reader does report the fault *)
+    starts_with BEG (p ++ [x47; x31; x0a]) = true /\                  (* the whole line would have matched *)
+    hf_envelope_start [starts_with BEG] ls (IoFault f) = HfEOF.      (* the envelope logic says io.EOF *)
+Proof. exists [x42; x45], 7%N, [[x42; x45]]. vm_compute. repeat split; reflexivity. Qed.
+
+(* Inside the guard of the main generators (the torn line still matches its header, or the fault
+   falls between lines) the start of an envelope never answers io.EOF for a failing reader. *)
+Theorem hf_envelope_start_guarded headers ls e :
+  e <> IoEOF ->
+  (forall l, In l ls -> l <> [] -> existsb (fun h => h l) headers = true) ->
+  hf_envelope_start headers ls e <> HfEOF.
+Proof.
+  intros He Hg. unfold hf_envelope_start.
+  destruct (filter (fun l => negb (is_nil l)) ls) as [|l r] eqn:E.
+  - destruct e; congruence.
+  - assert (Hin : In l (filter (fun l => negb (is_nil l)) ls)) by (rewrite E; left; reflexivity).
+    apply filter_In in Hin as [Hin Hn]. rewrite (Hg l Hin); [discriminate|].
+    destruct l; [discriminate|discriminate].
+Qed.
